@@ -34,6 +34,8 @@ def convert(filename, fd_out):
     for node in doc.iter():
         if node.tag == 'seg':
             wr.Write(get_segment(node, seg_term, ele_term, subele_term))
+    # the XML of a file that stops early has no trailers: the writer generates them
+    wr.Close()
     return True
 
 
